@@ -260,8 +260,8 @@ def confirmStep (txids : List TxId) (height : Nat) (acc : Tower × List Uuid) (k
     else if k ∈ s.mem.reorged then acc
     else match t.status with
       | .confirmedIn h =>
-        if h > height then (s.abort "responder.check_confirmations: current_height - h", done)
-        else if Gen.isCompleted (height - h) then (s, done ++ [k]) else acc
+        -- `current_height.saturating_sub(h)` (natural-number subtraction saturates as well)
+        if Gen.isCompleted (height - h) then (s, done ++ [k]) else acc
       | _ => acc
 
 /-- `Responder::check_confirmations`; returns the completed trackers -/
